@@ -147,7 +147,8 @@ def check_case(p, ctx):
             conflict[k] = {js[ia], js[ib]}
         guess[k] = g
     centres = {k: frame_centre(S.R[k]) for k in range(n)}
-    fsys = call(fs.ForSys, S.frames, cm=p["cm"], initial_guess={k: dict(v) for k, v in guess.items()})
+    kw_cm = {} if (not p["cm"] and p["lab_seeds"][0] % 2) else {"cm": p["cm"]}     # cm=False is the default
+    fsys = call(fs.ForSys, S.frames, initial_guess={k: dict(v) for k, v in guess.items()}, **kw_cm)
     mesh = core.mesh_of(fsys)
     moved_frac = []
     conditional = True
